@@ -203,7 +203,7 @@ pub fn run(tier: Tier) -> i32 {
     crate::engine::start_watchdog("C12", std::time::Duration::from_secs(60));
     let mut st = Stats::default();
     // (a) compile errors of every string over the extended alphabet
-    let k = tier.pick(4, 5);
+    let k = tier.pick(5, 6);
     let mut s0 = Stats::default();
     char_dfs(SIGMA_EXT, "", 0, 1, &mut s0, &mut |s, st| check_compile_error(s, st));
     st = st.merge(s0);
@@ -227,7 +227,7 @@ pub fn run(tier: Tier) -> i32 {
     for name in names() {
         let (declared, variadic) = sigs.iter().find(|s| s.name == name).map(|s| (s.params.len(), s.variadic.is_some())).unwrap_or((1, false));
         let maxc = if variadic { 3 } else { declared + 1 };
-        for c in 0..=maxc.min(tier.pick(2, 3)) {
+        for c in 0..=maxc.min(3) {
             work.push((name.clone(), c));
         }
     }
